@@ -1,3 +1,5 @@
+//go:build !skip_c01c09_issuance
+
 package main
 
 // Lock-step driver shared by C01 and C09: runs obtainCert / renewCert / manageOne /
@@ -32,15 +34,15 @@ import (
 )
 
 const (
-	fNone   = 0
-	fErr    = 1
-	fCancel = 2
-	fPanic  = 3
+	c01fNone   = 0
+	c01fErr    = 1
+	c01fCancel = 2
+	c01fPanic  = 3
 )
 
-var faultNames = []string{"none", "error", "cancel", "panic"}
+var c01FaultNames = []string{"none", "error", "cancel", "panic"}
 
-type issThread struct {
+type c01issThread struct {
 	Prog     string `json:"prog"` // obtain | renew | manage | clean | ari
 	Async    bool   `json:"async,omitempty"`
 	Name     string `json:"name,omitempty"`
@@ -52,14 +54,14 @@ type issThread struct {
 	Newer    bool   `json:"newer,omitempty"`    // ari: storage holds newer renewal info
 }
 
-type issSeed struct {
+type c01issSeed struct {
 	Name string `json:"name"`
 	Kind string `json:"kind"` // fresh | due | keyonly | nokey | nometa | mismatch
 }
 
-type issCase struct {
-	Threads          []issThread       `json:"threads"`
-	Seeds            []issSeed         `json:"seeds,omitempty"`
+type c01issCase struct {
+	Threads          []c01issThread       `json:"threads"`
+	Seeds            []c01issSeed         `json:"seeds,omitempty"`
 	LastClean        string            `json:"last_clean,omitempty"` // "" | recent | old
 	Policy           string            `json:"policy"`               // seq | rr | random | sticky | script
 	SchedSeed        int64             `json:"sched_seed,omitempty"`
@@ -72,7 +74,7 @@ type issCase struct {
 	Class            string            `json:"class"`
 }
 
-type issStep struct {
+type c01issStep struct {
 	Tid   int    `json:"t"`
 	Fault int    `json:"f"`
 	Op    [4]int `json:"-"`
@@ -80,10 +82,10 @@ type issStep struct {
 	Desc  string `json:"op"`
 }
 
-type issObs struct {
+type c01issObs struct {
 	Cfgs        [][]int   `json:"-"`
 	Init        [][]int   `json:"-"`
-	Steps       []issStep `json:"steps"`
+	Steps       []c01issStep `json:"steps"`
 	Results     []int     `json:"results"`
 	Seen        []int     `json:"seen"`
 	Final       [][]int   `json:"final"`
@@ -100,12 +102,12 @@ type issObs struct {
 	LockNames   []string  `json:"lock_names"`
 }
 
-type intern struct {
+type c01Intern struct {
 	m map[string]int
 	l []string
 }
 
-func (t *intern) id(s string) int {
+func (t *c01Intern) id(s string) int {
 	if t.m == nil {
 		t.m = map[string]int{}
 	}
@@ -118,7 +120,7 @@ func (t *intern) id(s string) int {
 	return i
 }
 
-type issArrival struct {
+type c01issArrival struct {
 	tid   int
 	op    doubles.Op
 	reply chan int
@@ -127,15 +129,15 @@ type issArrival struct {
 }
 
 const (
-	stRunning = iota
-	stGate
-	stBlocked
-	stDone
+	c01stRunning = iota
+	c01stGate
+	c01stBlocked
+	c01stDone
 )
 
-type issRT struct {
+type c01issRT struct {
 	id       int
-	spec     issThread
+	spec     c01issThread
 	inst     string
 	cfg      *certmagic.Config
 	cache    *certmagic.Cache
@@ -146,7 +148,7 @@ type issRT struct {
 	lockKey  string
 	ascii    string
 	state    int
-	gate     *issArrival
+	gate     *c01issArrival
 	nops     int
 	res      int
 	canc     bool
@@ -158,31 +160,31 @@ type issRT struct {
 	usedF    map[string]bool
 }
 
-type issEnv struct {
-	cs       issCase
+type c01issEnv struct {
+	cs       c01issCase
 	b        *doubles.MemBackend
 	ca       *doubles.CA
-	names    intern
-	lockT    intern
-	ids      intern
-	threads  []*issRT
-	arrivals chan *issArrival
+	names    c01Intern
+	lockT    c01Intern
+	ids      c01Intern
+	threads  []*c01issRT
+	arrivals chan *c01issArrival
 	mu       sync.Mutex
 	alloc    int64
-	obs      issObs
+	obs      c01issObs
 	rnd      *rand.Rand
 	last     int
 	scriptI  int
 }
 
-var errInjected = errors.New("injected fault")
+var c01ErrInjected = errors.New("injected fault")
 
-type issPanic struct{}
+type c01issPanic struct{}
 
-var issCA *doubles.CA
-var issCAOnce sync.Once
+var c01issCA *doubles.CA
+var c01issCAOnce sync.Once
 
-func toASCII(name string) string {
+func c01ToASCII(name string) string {
 	a, err := idna.ToASCII(name)
 	if err != nil {
 		return name
@@ -192,14 +194,14 @@ func toASCII(name string) string {
 
 // ---- doubles specific to this driver
 
-type issIssuer struct {
-	e  *issEnv
-	rt *issRT
+type c01issIssuer struct {
+	e  *c01issEnv
+	rt *c01issRT
 }
 
-func (i *issIssuer) IssuerKey() string { return "dbl" }
+func (i *c01issIssuer) IssuerKey() string { return "dbl" }
 
-func (i *issIssuer) Issue(ctx context.Context, csr *x509.CertificateRequest) (*certmagic.IssuedCertificate, error) {
+func (i *c01issIssuer) Issue(ctx context.Context, csr *x509.CertificateRequest) (*certmagic.IssuedCertificate, error) {
 	var names []string
 	names = append(names, csr.DNSNames...)
 	for _, ip := range csr.IPAddresses {
@@ -231,7 +233,7 @@ func (i *issIssuer) Issue(ctx context.Context, csr *x509.CertificateRequest) (*c
 	return &certmagic.IssuedCertificate{Certificate: chain, Metadata: map[string]any{"issuer_double": "dbl"}}, nil
 }
 
-func (i *issIssuer) GetRenewalInfo(ctx context.Context, cert certmagic.Certificate) (acme.RenewalInfo, error) {
+func (i *c01issIssuer) GetRenewalInfo(ctx context.Context, cert certmagic.Certificate) (acme.RenewalInfo, error) {
 	if _, err := i.e.b.Log.Begin(doubles.Op{Inst: i.rt.inst, Kind: "AriGet", Key: "dbl"}); err != nil {
 		return acme.RenewalInfo{}, err
 	}
@@ -243,18 +245,18 @@ func (i *issIssuer) GetRenewalInfo(ctx context.Context, cert certmagic.Certifica
 	return ri, nil
 }
 
-var _ certmagic.Issuer = (*issIssuer)(nil)
-var _ certmagic.RenewalInfoGetter = (*issIssuer)(nil)
+var _ certmagic.Issuer = (*c01issIssuer)(nil)
+var _ certmagic.RenewalInfoGetter = (*c01issIssuer)(nil)
 
 // ---- set-up
 
-func (e *issEnv) siteKeys(nm string) (k, c, m string) {
+func (e *c01issEnv) siteKeys(nm string) (k, c, m string) {
 	return "certificates/dbl/" + nm + "/" + nm + ".key", "certificates/dbl/" + nm + "/" + nm + ".crt", "certificates/dbl/" + nm + "/" + nm + ".json"
 }
 
-func (e *issEnv) seed() error {
+func (e *c01issEnv) seed() error {
 	for i, s := range e.cs.Seeds {
-		ascii := toASCII(s.Name)
+		ascii := c01ToASCII(s.Name)
 		nm := certmagic.StorageKeys.Safe(ascii)
 		n := e.names.id(nm)
 		nb, na := time.Now().Add(-time.Hour), time.Now().Add(89*24*time.Hour)
@@ -318,17 +320,17 @@ func (e *issEnv) seed() error {
 	return nil
 }
 
-func b2i(b bool) int {
+func c01B2i(b bool) int {
 	if b {
 		return 1
 	}
 	return 0
 }
 
-func (e *issEnv) setupThread(i int, sp issThread) (*issRT, error) {
-	rt := &issRT{id: i, spec: sp, inst: "t" + strconv.Itoa(i), usedF: map[string]bool{}}
+func (e *c01issEnv) setupThread(i int, sp c01issThread) (*c01issRT, error) {
+	rt := &c01issRT{id: i, spec: sp, inst: "t" + strconv.Itoa(i), usedF: map[string]bool{}}
 	rt.storage = e.b.Handle(rt.inst)
-	iss := &issIssuer{e: e, rt: rt}
+	iss := &c01issIssuer{e: e, rt: rt}
 	tmpl := certmagic.Config{ReusePrivateKeys: sp.Reuse, DisableStorageCheck: sp.NoChk}
 	tmpl.OnEvent = func(ctx context.Context, event string, data map[string]any) error {
 		_, err := e.b.Log.Begin(doubles.Op{Inst: rt.inst, Kind: "Event", Key: event})
@@ -337,7 +339,7 @@ func (e *issEnv) setupThread(i int, sp issThread) (*issRT, error) {
 	rt.cfg, rt.cache = doubles.NewConfig(rt.storage, tmpl, certmagic.CacheOptions{}, iss)
 	rt.ctx, rt.cancel = context.WithCancel(context.Background())
 	rt.eff = sp.Name
-	progCode, flag := 0, b2i(sp.Async)
+	progCode, flag := 0, c01B2i(sp.Async)
 	switch sp.Prog {
 	case "obtain":
 	case "renew":
@@ -346,13 +348,13 @@ func (e *issEnv) setupThread(i int, sp issThread) (*issRT, error) {
 		progCode, flag = 2, 0
 		rt.eff = certmagic.VerifLocksNormalizedName(sp.Name)
 	case "clean":
-		progCode, flag = 3, b2i(sp.Interval)
+		progCode, flag = 3, c01B2i(sp.Interval)
 	case "ari":
-		progCode, flag = 4, b2i(sp.Newer)
+		progCode, flag = 4, c01B2i(sp.Newer)
 	default:
 		return nil, fmt.Errorf("unknown program %q", sp.Prog)
 	}
-	rt.ascii = toASCII(rt.eff)
+	rt.ascii = c01ToASCII(rt.eff)
 	lk, pk, vk, idn := 0, 0, 0, 0
 	switch sp.Prog {
 	case "clean":
@@ -391,11 +393,11 @@ func (e *issEnv) setupThread(i int, sp issThread) (*issRT, error) {
 		idn = e.ids.id("dbl:" + strings.ToLower(rt.ascii))
 	}
 	lk = e.lockT.id(rt.lockKey)
-	e.obs.Cfgs = append(e.obs.Cfgs, []int{progCode, flag, lk, pk, vk, idn, b2i(sp.Reuse), b2i(!sp.NoChk), b2i(sp.Force), b2i(sp.IssDue)})
+	e.obs.Cfgs = append(e.obs.Cfgs, []int{progCode, flag, lk, pk, vk, idn, c01B2i(sp.Reuse), c01B2i(!sp.NoChk), c01B2i(sp.Force), c01B2i(sp.IssDue)})
 	return rt, nil
 }
 
-func (e *issEnv) body(rt *issRT) (res int) {
+func (e *c01issEnv) body(rt *c01issRT) (res int) {
 	defer func() {
 		if r := recover(); r != nil {
 			res = 2
@@ -433,7 +435,7 @@ func (e *issEnv) body(rt *issRT) (res int) {
 	return 0
 }
 
-func (e *issEnv) hook(op *doubles.Op) error {
+func (e *c01issEnv) hook(op *doubles.Op) error {
 	if !strings.HasPrefix(op.Inst, "t") {
 		return nil
 	}
@@ -441,35 +443,35 @@ func (e *issEnv) hook(op *doubles.Op) error {
 	if err != nil || tid >= len(e.threads) {
 		return nil
 	}
-	a := &issArrival{tid: tid, op: *op, reply: make(chan int, 1)}
+	a := &c01issArrival{tid: tid, op: *op, reply: make(chan int, 1)}
 	e.arrivals <- a
 	f := <-a.reply
-	if op.Kind == "Unlock" && op.CtxErr != "" && f == fNone {
+	if op.Kind == "Unlock" && op.CtxErr != "" && f == c01fNone {
 		// a storage that honours contexts would refuse this call: the release must not be made
 		// with the caller's cancelled context (storage.go releaseLock uses WithoutCancel)
 		return errors.New("Unlock called with a cancelled context: " + op.CtxErr)
 	}
 	switch f {
-	case fErr:
-		return errInjected
-	case fCancel:
+	case c01fErr:
+		return c01ErrInjected
+	case c01fCancel:
 		e.threads[tid].cancel()
-	case fPanic:
-		panic(issPanic{})
+	case c01fPanic:
+		panic(c01issPanic{})
 	}
 	return nil
 }
 
-func (e *issEnv) wait(n int) error {
+func (e *c01issEnv) wait(n int) error {
 	for i := 0; i < n; i++ {
 		select {
 		case a := <-e.arrivals:
 			rt := e.threads[a.tid]
 			if a.done {
-				rt.state, rt.res, rt.gate = stDone, a.res, nil
+				rt.state, rt.res, rt.gate = c01stDone, a.res, nil
 				rt.inSave, rt.midLoad = false, false
 			} else {
-				rt.state, rt.gate = stGate, a
+				rt.state, rt.gate = c01stGate, a
 			}
 		case <-time.After(90 * time.Second):
 			return fmt.Errorf("lock-step driver: no arrival within 90 s (states %v)", e.states())
@@ -478,7 +480,7 @@ func (e *issEnv) wait(n int) error {
 	return nil
 }
 
-func (e *issEnv) states() []string {
+func (e *c01issEnv) states() []string {
 	var s []string
 	for _, rt := range e.threads {
 		g := ""
@@ -492,7 +494,7 @@ func (e *issEnv) states() []string {
 
 // ---- op encoding
 
-func kindOfSuffix(key string) int {
+func c01KindOfSuffix(key string) int {
 	switch {
 	case strings.HasSuffix(key, ".key"):
 		return 0
@@ -505,12 +507,12 @@ func kindOfSuffix(key string) int {
 }
 
 // siteKey parses certificates/dbl/<nm>/<nm>.<ext>
-func (e *issEnv) siteKey(key string) (n, kind int, ok bool) {
+func (e *c01issEnv) siteKey(key string) (n, kind int, ok bool) {
 	p := strings.Split(key, "/")
 	if len(p) != 4 || p[0] != "certificates" || p[1] != "dbl" {
 		return 0, 0, false
 	}
-	kind = kindOfSuffix(p[3])
+	kind = c01KindOfSuffix(p[3])
 	if kind < 0 {
 		return 0, 0, false
 	}
@@ -521,7 +523,7 @@ func (e *issEnv) siteKey(key string) (n, kind int, ok bool) {
 	return e.names.id(p[2]), kind, true
 }
 
-func (e *issEnv) encodeOp(rt *issRT, op doubles.Op) ([4]int, string) {
+func (e *c01issEnv) encodeOp(rt *c01issRT, op doubles.Op) ([4]int, string) {
 	stor := map[string]int{"Exists": 1, "Load": 2, "Store": 3, "Delete": 4}
 	desc := op.Kind + " " + op.Key
 	switch op.Kind {
@@ -566,7 +568,7 @@ func (e *issEnv) encodeOp(rt *issRT, op doubles.Op) ([4]int, string) {
 	return [4]int{99, 0, 0, 0}, desc
 }
 
-func (e *issEnv) existsNow(key string) bool {
+func (e *c01issEnv) existsNow(key string) bool {
 	for _, k := range e.b.Keys() {
 		if k == key || strings.HasPrefix(k, key+"/") {
 			return true
@@ -577,11 +579,11 @@ func (e *issEnv) existsNow(key string) bool {
 
 // ---- scheduling
 
-func (e *issEnv) faultFor(rt *issRT, a *issArrival) int {
+func (e *c01issEnv) faultFor(rt *c01issRT, a *c01issArrival) int {
 	if a.op.Kind == "LockAcquired" {
-		return fNone
+		return c01fNone
 	}
-	f := fNone
+	f := c01fNone
 	if v, ok := e.cs.Faults[fmt.Sprintf("%d:%d", rt.id, rt.nops)]; ok {
 		f = v
 	}
@@ -593,22 +595,22 @@ func (e *issEnv) faultFor(rt *issRT, a *issArrival) int {
 		}
 	}
 	// budget: a retry loop that would never end is cancelled
-	if f == fNone && rt.nops >= 70 && a.op.Kind != "Unlock" && !rt.canc {
-		f = fCancel
+	if f == c01fNone && rt.nops >= 70 && a.op.Kind != "Unlock" && !rt.canc {
+		f = c01fCancel
 	}
 	if _, _, ok := e.siteKey(a.op.Key); ok && (a.op.Kind == "Store" || a.op.Kind == "Delete") && !e.cs.AllowSaveFault && rt.spec.Prog != "ari" && rt.spec.Prog != "clean" {
-		f = fNone
+		f = c01fNone
 	}
-	if a.op.Kind == "Unlock" && (f == fErr || f == fPanic) && !e.cs.AllowUnlockFault {
-		f = fNone // an Unlock that fails leaves the lock held by definition (C09's excluded class)
+	if a.op.Kind == "Unlock" && (f == c01fErr || f == c01fPanic) && !e.cs.AllowUnlockFault {
+		f = c01fNone // an Unlock that fails leaves the lock held by definition (C09's excluded class)
 	}
 	return f
 }
 
-func (e *issEnv) holdsLock(rt *issRT) bool { return e.b.LockOwner(rt.lockKey) == rt.inst }
+func (e *c01issEnv) holdsLock(rt *c01issRT) bool { return e.b.LockOwner(rt.lockKey) == rt.inst }
 
 // wouldOverlap: granting rt's pending gate would let an unlocked manage load overlap a save window
-func (e *issEnv) wouldOverlap(rt *issRT) bool {
+func (e *c01issEnv) wouldOverlap(rt *c01issRT) bool {
 	if e.cs.AllowOverlap {
 		return false
 	}
@@ -634,7 +636,7 @@ func (e *issEnv) wouldOverlap(rt *issRT) bool {
 	return false
 }
 
-func (e *issEnv) paused(rt *issRT) bool {
+func (e *c01issEnv) paused(rt *c01issRT) bool {
 	if rt.unpaused {
 		return false
 	}
@@ -646,10 +648,10 @@ func (e *issEnv) paused(rt *issRT) bool {
 	return rt.gate.op.Kind == p[0] && strings.HasSuffix(rt.gate.op.Key, p[1])
 }
 
-func (e *issEnv) pick() *issRT {
-	var cands, pausedC []*issRT
+func (e *c01issEnv) pick() *c01issRT {
+	var cands, pausedC []*c01issRT
 	for _, rt := range e.threads {
-		if rt.state != stGate || e.wouldOverlap(rt) {
+		if rt.state != c01stGate || e.wouldOverlap(rt) {
 			continue
 		}
 		if e.paused(rt) {
@@ -665,7 +667,7 @@ func (e *issEnv) pick() *issRT {
 		pausedC[0].unpaused = true
 		return pausedC[0]
 	}
-	byID := func(id int) *issRT {
+	byID := func(id int) *c01issRT {
 		for _, c := range cands {
 			if c.id == id {
 				return c
@@ -700,7 +702,7 @@ func (e *issEnv) pick() *issRT {
 	return cands[0] // seq
 }
 
-func (e *issEnv) stepThread(rt *issRT) error {
+func (e *c01issEnv) stepThread(rt *c01issRT) error {
 	a := rt.gate
 	f := e.faultFor(rt, a)
 	rt.nops++
@@ -711,28 +713,28 @@ func (e *issEnv) stepThread(rt *issRT) error {
 		exists = e.existsNow(a.op.Key)
 	}
 	lockHeld := kind == "Lock" && e.b.LockOwner(a.op.Key) != ""
-	var waiters []*issRT
+	var waiters []*c01issRT
 	if kind == "Unlock" {
 		for _, o := range e.threads {
-			if o.state == stBlocked && o.waitLock == a.op.Key {
+			if o.state == c01stBlocked && o.waitLock == a.op.Key {
 				waiters = append(waiters, o)
 			}
 		}
 	}
 	cancBefore := rt.canc
-	if f == fCancel {
+	if f == c01fCancel {
 		rt.canc = true
 	}
 	wasHolding := e.holdsLock(rt)
 	rt.gate = nil
 	a.reply <- f
 	expected := 1
-	rt.state = stRunning
-	if kind == "Lock" && lockHeld && f == fNone && !cancBefore {
-		rt.state, rt.waitLock, expected = stBlocked, a.op.Key, 0
+	rt.state = c01stRunning
+	if kind == "Lock" && lockHeld && f == c01fNone && !cancBefore {
+		rt.state, rt.waitLock, expected = c01stBlocked, a.op.Key, 0
 	}
-	refused := kind == "Unlock" && a.op.CtxErr != "" && f == fNone // see hook: cancelled context at the release
-	if kind == "Unlock" && (f == fNone || f == fCancel) && !refused && len(waiters) > 0 {
+	refused := kind == "Unlock" && a.op.CtxErr != "" && f == c01fNone // see hook: cancelled context at the release
+	if kind == "Unlock" && (f == c01fNone || f == c01fCancel) && !refused && len(waiters) > 0 {
 		expected++
 	}
 	if err := e.wait(expected); err != nil {
@@ -740,10 +742,10 @@ func (e *issEnv) stepThread(rt *issRT) error {
 	}
 	// outcome
 	lo := e.b.Log.At(a.op.Seq)
-	bad := f == fErr || rt.canc
+	bad := f == c01fErr || rt.canc
 	out := 0
 	switch {
-	case f == fPanic:
+	case f == c01fPanic:
 		out = 3
 	case kind == "Exists":
 		if lo.Err != "" {
@@ -774,7 +776,7 @@ func (e *issEnv) stepThread(rt *issRT) error {
 			out = 2
 		}
 	}
-	e.obs.Steps = append(e.obs.Steps, issStep{Tid: rt.id, Fault: f, Op: enc, Out: out, Desc: desc})
+	e.obs.Steps = append(e.obs.Steps, c01issStep{Tid: rt.id, Fault: f, Op: enc, Out: out, Desc: desc})
 	e.obs.Sched = append(e.obs.Sched, rt.id)
 	e.last = rt.id
 	if kind == "IssueStart" {
@@ -813,7 +815,7 @@ func (e *issEnv) stepThread(rt *issRT) error {
 			}
 		}
 	}
-	if rt.state == stDone {
+	if rt.state == c01stDone {
 		rt.inSave, rt.midLoad = false, false
 	}
 	for _, m := range e.threads {
@@ -826,25 +828,25 @@ func (e *issEnv) stepThread(rt *issRT) error {
 	return nil
 }
 
-func (e *issEnv) cancelBlocked(rt *issRT) error {
+func (e *c01issEnv) cancelBlocked(rt *c01issRT) error {
 	rt.canc = true
-	rt.state = stRunning
+	rt.state = c01stRunning
 	rt.cancel()
 	if err := e.wait(1); err != nil {
 		return err
 	}
-	e.obs.Steps = append(e.obs.Steps, issStep{Tid: rt.id, Fault: fCancel, Op: [4]int{7, e.lockT.id(rt.waitLock), 0, 0}, Out: 2, Desc: "cancelled while waiting for " + rt.waitLock})
+	e.obs.Steps = append(e.obs.Steps, c01issStep{Tid: rt.id, Fault: c01fCancel, Op: [4]int{7, e.lockT.id(rt.waitLock), 0, 0}, Out: 2, Desc: "cancelled while waiting for " + rt.waitLock})
 	e.obs.Sched = append(e.obs.Sched, rt.id)
 	return nil
 }
 
-var issRetryOnce sync.Once
+var c01issRetryOnce sync.Once
 
-// runIssCase executes one case on the real code.
-func runIssCase(cs issCase) (*issObs, error) {
-	issCAOnce.Do(func() { issCA = doubles.NewCA("issuance harness CA") })
-	issRetryOnce.Do(func() { certmagic.VerifLocksSetRetryIntervals([]time.Duration{3 * time.Millisecond}) })
-	e := &issEnv{cs: cs, b: doubles.NewMemBackend(), ca: issCA, arrivals: make(chan *issArrival, 64), rnd: rand.New(rand.NewSource(cs.SchedSeed))}
+// c01RunIssCase executes one case on the real code.
+func c01RunIssCase(cs c01issCase) (*c01issObs, error) {
+	c01issCAOnce.Do(func() { c01issCA = doubles.NewCA("issuance harness CA") })
+	c01issRetryOnce.Do(func() { certmagic.VerifLocksSetRetryIntervals([]time.Duration{3 * time.Millisecond}) })
+	e := &c01issEnv{cs: cs, b: doubles.NewMemBackend(), ca: c01issCA, arrivals: make(chan *c01issArrival, 64), rnd: rand.New(rand.NewSource(cs.SchedSeed))}
 	e.b.HonourCtx = true
 	if err := e.seed(); err != nil {
 		return nil, err
@@ -871,10 +873,10 @@ func runIssCase(cs issCase) (*issObs, error) {
 	e.b.Log.SetHook(e.hook)
 	for _, rt := range e.threads {
 		rt := rt
-		rt.state = stRunning
+		rt.state = c01stRunning
 		go func() {
 			res := e.body(rt)
-			e.arrivals <- &issArrival{tid: rt.id, done: true, res: res}
+			e.arrivals <- &c01issArrival{tid: rt.id, done: true, res: res}
 		}()
 	}
 	if err := e.wait(len(e.threads)); err != nil {
@@ -886,9 +888,9 @@ func runIssCase(cs issCase) (*issObs, error) {
 		}
 		rt := e.pick()
 		if rt == nil {
-			var blocked *issRT
+			var blocked *c01issRT
 			for _, o := range e.threads {
-				if o.state == stBlocked {
+				if o.state == c01stBlocked {
 					blocked = o
 					break
 				}
@@ -915,7 +917,7 @@ func runIssCase(cs issCase) (*issObs, error) {
 		if rt.spec.Prog == "manage" {
 			certs := rt.cache.AllMatchingCertificates(strings.ToLower(rt.ascii))
 			if len(certs) > 0 && certs[0].Leaf != nil {
-				seen = serialToCid(certs[0].Leaf.SerialNumber.Int64())
+				seen = c01SerialToCid(certs[0].Leaf.SerialNumber.Int64())
 			}
 		}
 		o.Seen = append(o.Seen, seen)
@@ -929,7 +931,7 @@ func runIssCase(cs issCase) (*issObs, error) {
 		if hc {
 			if blk, _ := pem.Decode(cb); blk != nil {
 				if c, err := x509.ParseCertificate(blk.Bytes); err == nil {
-					cid = serialToCid(c.SerialNumber.Int64())
+					cid = c01SerialToCid(c.SerialNumber.Int64())
 				}
 			}
 			if hk {
@@ -938,7 +940,7 @@ func runIssCase(cs issCase) (*issObs, error) {
 				}
 			}
 		}
-		o.Final = append(o.Final, []int{n, b2i(hk), b2i(hc), b2i(hm), match, cid})
+		o.Final = append(o.Final, []int{n, c01B2i(hk), c01B2i(hc), c01B2i(hm), match, cid})
 	}
 	for _, k := range e.b.Keys() {
 		if strings.HasPrefix(k, "rw_test_") {
@@ -955,7 +957,7 @@ func runIssCase(cs issCase) (*issObs, error) {
 	return o, nil
 }
 
-func serialToCid(s int64) int {
+func c01SerialToCid(s int64) int {
 	switch {
 	case s >= 5000:
 		return int(s - 5000)
@@ -965,9 +967,9 @@ func serialToCid(s int64) int {
 	return 9999
 }
 
-// issWire encodes a case for Issuance/Check.v:
+// c01issWire encodes a case for Issuance/Check.v:
 // mode threads init steps results seen final rwleft last held recorded
-func issWire(mode int, o *issObs) string {
+func c01issWire(mode int, o *c01issObs) string {
 	enc := &emit.Enc{}
 	enc.Int(mode)
 	enc.Len(len(o.Cfgs))
@@ -1004,7 +1006,7 @@ func issWire(mode int, o *issObs) string {
 	return enc.String()
 }
 
-func issProgKey(cs issCase) string {
+func c01issProgKey(cs c01issCase) string {
 	var p []string
 	for _, t := range cs.Threads {
 		s := t.Prog
